@@ -213,6 +213,11 @@ func VH_C15_GroupRun(firstJoin, event int) {
 	committed := vhInt64("committed_offset")
 	vhAssume(committed >= -1)
 	okJoins := 0
+	// the coordinator may answer a re-join with a member id other than the one presented
+	id2 := "m1"
+	if vhBool("coordinator_assigns_a_new_member_id_on_rejoin") {
+		id2 = "m2"
+	}
 	co.joinOutcome = func(call int) (joinGroupResponse, error) {
 		if call == 1 {
 			switch firstJoin {
@@ -225,11 +230,11 @@ func VH_C15_GroupRun(firstJoin, event int) {
 			}
 		}
 		okJoins++
-		id := gen1
+		id, member := gen1, "m1"
 		if okJoins > 1 {
-			id = gen2
+			id, member = gen2, id2
 		}
-		return joinGroupResponse{GenerationID: id, MemberID: "m1", LeaderID: "someone-else", GroupProtocol: "range"}, nil
+		return joinGroupResponse{GenerationID: id, MemberID: member, LeaderID: "someone-else", GroupProtocol: "range"}, nil
 	}
 	co.syncResp = syncGroupResponseV0{MemberAssignments: groupAssignment{Version: 1, Topics: map[string][]int32{"t": {0}}}.bytes()}
 	co.fetchResp = offsetFetchResponseV1{Responses: []offsetFetchResponseV1Response{{Topic: "t", PartitionResponses: []offsetFetchResponseV1PartitionResponse{{Partition: 0, Offset: committed}}}}}
@@ -260,6 +265,39 @@ func VH_C15_GroupRun(firstJoin, event int) {
 	cg, nerr := NewConsumerGroup(cfg)
 	vhAssert(nerr == nil, "group-created")
 	ctx := context.Background()
+
+	if event == 3 {
+		// the group is closed after it has joined and built a generation that nobody received through Next: that
+		// generation ends too (no heartbeat after Close, one LeaveGroup, no goroutine of the group left)
+		vhSettle()
+		vhAssert(co.joins == 1, "group-joins-without-waiting-for-next")
+		closed := false
+		go func() { cg.Close(); closed = true }()
+		vhSettle()
+		vhSettle()
+		vhAssert(closed, "close-returns-when-no-function-was-started")
+		before := co.heartbeats
+		for i := 0; i < 3; i++ {
+			if !vhFireNext() {
+				break
+			}
+			vhSettle()
+		}
+		vhAssert(co.heartbeats == before, "no-heartbeat-after-close")
+		leaves := 0
+		for _, c := range co.calls {
+			if c == "leaveGroup:m1" {
+				leaves++
+			}
+		}
+		vhAssert(leaves == 1, "close-sends-one-LeaveGroup-for-the-member")
+		for i := 1; i <= vhSpawned(); i++ {
+			vhAssert(vhCoroDone(i), "no-goroutine-of-the-group-outlives-close")
+		}
+		vhAssert(opened == co.closes, "every-coordinator-connection-opened-is-closed-once-the-group-is-closed")
+		vhReach("c15-group-closed-before-next")
+		return
+	}
 
 	g, err := cg.Next(ctx)
 	if firstJoin != 0 {
@@ -356,12 +394,19 @@ func VH_C15_GroupRun(firstJoin, event int) {
 	} else {
 		vhAssert(nextReturned && g2 != nil && err2 == nil, "a-new-generation-follows")
 		if g2 != nil {
-			vhAssert(vhAll(g2.ID == gen2, g2.MemberID == "m1"), "second-generation-identity")
+			vhAssert(vhAll(g2.ID == gen2, g2.MemberID == id2), "second-generation-identity")
 		}
 		vhAssert(len(co.joinMembers) >= 2 && co.joinMembers[len(co.joinMembers)-1] == "m1", "member-id-is-kept-across-generations")
 		closed2 := make(chan struct{})
 		go func() { cg.Close(); close(closed2) }()
 		<-closed2
+		left2 := false
+		for _, c := range co.calls {
+			if c == "leaveGroup:"+id2 {
+				left2 = true
+			}
+		}
+		vhAssert(left2, "close-sends-LeaveGroup-for-the-member-id-of-the-current-generation")
 	}
 	vhSettle()
 	vhAssert(opened == co.closes, "every-coordinator-connection-opened-is-closed-once-the-group-is-closed")
